@@ -127,7 +127,7 @@ Lemma G_write c s s' g g' B Bb B' Bb' t :
   DIs c s' -> BIs c s' -> DLim c s' ->
   G c s' g' B' Bb'.
 Proof.
-  intros Hc (Hn & _ & _ & _ & Hall) Hrel Hp3 (K1 & K2 & K3) (q & Hq) Hoth Hmono Hd Hb Hl.
+  intros Hc (Hn & _ & _ & _ & Hall) Hrel Hp3 (K1 & K2 & K3 & _) (q & Hq) Hoth Hmono Hd Hb Hl.
   split; [lia|]. split; [exact Hd|]. split; [exact Hb|]. split; [exact Hl|].
   intros t0. split.
   - (* SC *)
@@ -187,7 +187,7 @@ Lemma PG_write c s s' g g' B Bb B' Bb' t :
   l_del (lget g' (t_id t)) = l_del (lget g (t_id t)) ->
   PG c s'.
 Proof.
-  intros Hc (_ & _ & _ & _ & Hall) (_ & _ & _ & _ & Hall') Hpg Hgrow (_ & _ & K3) Hoth Hdel t0 x p Hp.
+  intros Hc (_ & _ & _ & _ & Hall) (_ & _ & _ & _ & Hall') Hpg Hgrow (_ & _ & K3 & _) Hoth Hdel t0 x p Hp.
   pose proof Hc as (Hh & _).
   destruct (N.eq_dec t0 (t_id t)) as [->|Hne]; [|rewrite (Hoth t0 Hne) in *; now apply Hpg].
   rewrite K3 in Hp. specialize (Hpg (t_id t) x p Hp).
